@@ -1,4 +1,6 @@
 import CfdpVerif.Props.C14
+import CfdpVerif.Lemmas.InvSourceBound
+import CfdpVerif.Lemmas.InvDestBound
 /-!
 # C04 — retry limits are honoured exactly; a silent peer cannot hang a transaction
 
@@ -619,5 +621,67 @@ theorem C04_dest_silent_peer_idle_after_2N (cfg : LocalCfg) (rc : RemoteCfg) (re
   · simpa [cancelledSt, bump, bumpP] using hfl1
   · simp [h3, hconf1, cancelledSt, cancelP, bump, bumpP]
   · rw [h3]; exact hdend
+
+/-! ## The retry counters never reach their limits — every call sequence -/
+
+inductive SCall where
+  | put (req : Source.PutReq) | sm (pkt : Option Pdu) | get | cancel (tid : Tid) | reset
+
+def SCall.run (env : Source.Env) : SCall → Source.SrcSt → Source.SrcSt
+  | .put r, s => stateOf (Source.putRequest env r s)
+  | .sm pkt, s => stateOf (Source.stateMachine env pkt s)
+  | .get, s => stateOf (Source.getNextPacket s)
+  | .cancel t, s => stateOf (Source.cancelRequest env t s)
+  | .reset, s => stateOf (Source.reset s)
+
+inductive DCall where
+  | sm (pkt : Option Pdu) | get | cancel (tid : Tid) | reset
+
+def DCall.run (env : Dest.Env) : DCall → Dest.DestSt → Dest.DestSt
+  | .sm pkt, s => stateOf (Dest.stateMachine env pkt s)
+  | .get, s => stateOf (Dest.getNextPacket s)
+  | .cancel t, s => stateOf (Dest.cancelRequest env t s)
+  | .reset, s => stateOf (Dest.reset s)
+
+/-- **Sender, every call sequence.**  From a new handler, after any sequence of put requests,
+`state_machine` calls with any PDU or none at any times, retrievals, cancel requests and resets: the
+positive-ACK retry counter is 0 or satisfies `counter + 1 ≤ limit` — whatever the fault handlers, the
+EOF of a transaction is re-sent at most `limit - 1` times. -/
+theorem C04_source_counter_below_limit_all_histories (env : Source.Env) (calls : List SCall) (s : Source.SrcSt)
+    (h : Source.Bound.AckBound env s) :
+    Source.Bound.AckBound env (calls.foldl (fun s c => c.run env s) s) := by
+  induction calls generalizing s with
+  | nil => exact h
+  | cons c cs ih =>
+    apply ih
+    cases c with
+    | put r => exact Source.Bound.putRequest_b env r s h
+    | sm pkt => exact Source.Bound.stateMachine_b env pkt s h
+    | get => exact Source.Bound.getNextPacket_b env s h
+    | cancel t => exact Source.Bound.cancelRequest_b env t s h
+    | reset => exact Source.Bound.reset_b env s h
+
+/-- a new sender satisfies the invariant -/
+theorem C04_source_counter_init (env : Source.Env) : Source.Bound.AckBound env {} :=
+  ⟨fun _ => ⟨rfl, rfl⟩, fun rc h => by simp at h⟩
+
+/-- **Receiver, every call sequence**: the NAK retry counter satisfies `counter + 1 ≤ limit` (for limits
+of at least 1) — the NAK sequence is re-issued at most `limit - 1` times without progress, whatever the
+fault handlers and whatever arrives in between. -/
+theorem C04_dest_nak_counter_below_limit_all_histories (env : Dest.Env) (calls : List DCall) (s : Dest.DestSt)
+    (h : Dest.Bound.NakBound env s) :
+    Dest.Bound.NakBound env (calls.foldl (fun s c => c.run env s) s) := by
+  induction calls generalizing s with
+  | nil => exact h
+  | cons c cs ih =>
+    apply ih
+    cases c with
+    | sm pkt => exact Dest.Bound.stateMachine_b env pkt s h
+    | get => exact Dest.Bound.getNextPacket_b env s h
+    | cancel t => exact Dest.Bound.cancelRequest_b env t s h
+    | reset => exact Dest.Bound.reset_b env s h
+
+theorem C04_dest_nak_counter_init (env : Dest.Env) : Dest.Bound.NakBound env {} :=
+  ⟨fun _ => ⟨rfl, rfl⟩, fun rc h => by simp at h⟩
 
 end Cfdp.C04
